@@ -1,9 +1,85 @@
 /-
 C09, property theorems about the TRANSLATED cryptobyte-based decoders (part SH; see DESIGN.md 12.4).
 Same namespace as Props/C09.lean; listed in checks/C09.json under extra_props_files.
+
+`serverHelloMsg.unmarshal` of both stacks, as go2lean re-reads it from /repo on every run
+(`Gotlcp.Src.tlcp.codec` / `Gotlcp.Src.dtlcp.codec`): for EVERY receiver value and EVERY byte string the
+translated function returns `.ok _`.  `Except.error` would be a Go run-time panic (the only checked
+helper left after the cbString stubs are `Go.slice` in `dtlcpUnmarshalHeader`, `Go.idx` in
+`tlcpIsCompleteMessage` / `dtlcpIsCompleteMessage`) or "loop fuel exhausted" (the translator bounds
+`for !extensions.Empty()` by `len(data)+1` rounds): the decoder can neither panic nor spin.
+No hypothesis on the length of `data` is needed.
 -/
-import Gotlcp.Tie.CbString
+import Gotlcp.Tie.CodecSHDtlcp
 
 namespace Gotlcp.Props.C09
+open Gotlcp Gotlcp.Tie.CodecSH
+
+/-- tlcp `serverHelloMsg.unmarshal`: never a panic, never out of loop fuel; the value is the closed form
+`shT` (header guard, then the body decoder `decBody` shared by both stacks) -/
+theorem C09_src_no_panic_serverHelloMsg_unmarshal_tlcp (m : Src.tlcp.codec.serverHelloMsg) (data : List (BitVec 8)) :
+    (∃ r, Src.tlcp.codec.serverHelloMsg.unmarshal m data = .ok r) ∧
+    Src.tlcp.codec.serverHelloMsg.unmarshal m data = .ok (shT m data) :=
+  ⟨⟨_, tie_serverHello m data⟩, tie_serverHello m data⟩
+
+/-- dtlcp `serverHelloMsg.unmarshal` (through `dtlcpIsCompleteMessage` and `dtlcpUnmarshalHeader`) -/
+theorem C09_src_no_panic_serverHelloMsg_unmarshal_dtlcp (m : Src.dtlcp.codec.serverHelloMsg) (data : List (BitVec 8)) :
+    (∃ r, Src.dtlcp.codec.serverHelloMsg.unmarshal m data = .ok r) ∧
+    Src.dtlcp.codec.serverHelloMsg.unmarshal m data = .ok (Tie.CodecSHDtlcp.shD m data) :=
+  ⟨⟨_, Tie.CodecSHDtlcp.tie_serverHello m data⟩, Tie.CodecSHDtlcp.tie_serverHello m data⟩
+
+/-- `dtlcpUnmarshalHeader` as `serverHelloMsg.unmarshal` calls it (at least the twelve header bytes are
+there — `dtlcpIsCompleteMessage` has checked it): the slice `s[:fragmentLength]` is guarded, no panic -/
+theorem C09_src_no_panic_dtlcpUnmarshalHeader_guarded_dtlcp (data : List (BitVec 8)) (h : 12 ≤ data.length) :
+    ∃ r, Src.dtlcp.codec.dtlcpUnmarshalHeader data = .ok r :=
+  ⟨_, Tie.CodecSHDtlcp.hdr_eq data h⟩
+
+/-- why the extension loop cannot spin, whatever the struct of the stack (`L`): a round that goes on to the
+next one has taken at least four bytes off `extensions` (type and length prefix), and never leaves a
+pending `return` behind -/
+theorem C09_src_serverHello_extension_round_consumes {M : Type} (L : Lens M) (s s' : St M)
+    (h : stepG L s = .yield s') : s'.1 = none ∧ s'.2.2.length + 4 ≤ s.2.2.length :=
+  stepG_yield L s s' h
+
+/-- … so `len(extensions)+1` rounds (the translator allows `len(data)+1`) always reach `break` with nothing
+left, or `return false` -/
+theorem C09_src_serverHello_extension_loop_ends {M : Type} (L : Lens M) (n : Nat) (s : St M)
+    (h : s.2.2.length < n) :
+    ((iter (stepG L) n s).1 = none ∧ (iter (stepG L) n s).2.2 = []) ∨
+      ∃ m', (iter (stepG L) n s).1 = some (m', false) :=
+  iter_fuel L n s h
+
+/-! non-vacuity: a ServerHello with status_request, ALPN, server_name and an unknown extension is
+DECODED by the translated text (all nine fields), and the same message with one byte inside the
+server_name extension is REFUSED — neither is "just not a panic" -/
+
+/-- tlcp framing: type 2, length 69 -/
+def shFullT : List (BitVec 8) :=
+  [2, 0, 0, 69, 1, 1] ++ List.replicate 32 7 ++ [0, 0xe0, 0x13, 0, 0, 29,
+    0, 5, 0, 7, 1, 0, 0, 3, 0xaa, 0xbb, 0xcc, 0, 16, 0, 5, 0, 3, 2, 0x68, 0x32, 0, 0, 0, 0, 0xff, 1, 0, 1, 9]
+
+/-- dtlcp framing: type 2, length 69, message_seq 1, fragment_offset 0, fragment_length 69 -/
+def shFullD : List (BitVec 8) :=
+  [2, 0, 0, 69, 0, 1, 0, 0, 0, 0, 0, 69, 1, 1] ++ List.replicate 32 7 ++ [0, 0xe0, 0x13, 0, 0, 29,
+    0, 5, 0, 7, 1, 0, 0, 3, 0xaa, 0xbb, 0xcc, 0, 16, 0, 5, 0, 3, 2, 0x68, 0x32, 0, 0, 0, 0, 0xff, 1, 0, 1, 9]
+
+/-- server_name with a non-empty body -/
+def shBadT : List (BitVec 8) :=
+  [2, 0, 0, 45, 1, 1] ++ List.replicate 32 7 ++ [0, 0xe0, 0x13, 0, 0, 5, 0, 0, 0, 1, 9]
+
+example : Tie.UnmarshalTlcp.isOk (Src.tlcp.codec.serverHelloMsg.unmarshal {} shFullT)
+    ({ raw := shFullT, vers := 0x0101#16, random := List.replicate 32 7, sessionId := [], cipherSuite := 0xe013#16,
+       compressionMethod := 0, ocspStapling := true, ocspResponse := [0xaa, 0xbb, 0xcc],
+       alpnProtocol := [0x68, 0x32], serverNameAck := true }, true) = true := by decide
+
+example : Tie.UnmarshalTlcp.isOk (Src.dtlcp.codec.serverHelloMsg.unmarshal {} shFullD)
+    ({ raw := shFullD, vers := 0x0101#16, random := List.replicate 32 7, sessionId := [], cipherSuite := 0xe013#16,
+       compressionMethod := 0, ocspStapling := true, ocspResponse := [0xaa, 0xbb, 0xcc],
+       alpnProtocol := [0x68, 0x32], serverNameAck := true, messageSeq := 1, fragmentOffset := 0,
+       fragmentLength := 69 }, true) = true := by decide
+
+example : Tie.UnmarshalTlcp.isOk (Src.tlcp.codec.serverHelloMsg.unmarshal {} shBadT)
+    ({ raw := shBadT, vers := 0x0101#16, random := List.replicate 32 7, sessionId := [], cipherSuite := 0xe013#16,
+       compressionMethod := 0 }, false) = true := by decide
 
 end Gotlcp.Props.C09
